@@ -53,11 +53,22 @@ def main():
     if not ok:
         print("NOT KEPT")
         return 1
-    # run the checks against /repo with the change applied, then undo
-    rc, o = sh("git -C /repo status --porcelain")
-    assert o.strip() == "", "/repo is not clean: " + o
-    rc, o = sh("git -C /repo apply %s" % patch)
-    assert rc == 0, o
+    scratch = os.environ.get("SEED_SCRATCH")
+    if scratch:
+        # /repo is in use (a long run reads it): the same checks against a scratch worktree holding the change
+        run_wt = "/tmp/seedrun_" + sid
+        sh("git -C /repo worktree remove --force %s" % run_wt)
+        rc, o = sh("git -C /repo worktree add -q --detach %s HEAD" % run_wt)
+        assert rc == 0, o
+        rc, o = sh("git apply %s" % patch, cwd=run_wt)
+        assert rc == 0, o
+        ENV["VERIF_REPO"] = run_wt
+    else:
+        # run the checks against /repo with the change applied, then undo
+        rc, o = sh("git -C /repo status --porcelain")
+        assert o.strip() == "", "/repo is not clean: " + o
+        rc, o = sh("git -C /repo apply %s" % patch)
+        assert rc == 0, o
     try:
         for p in props:
             t0 = time.time()
@@ -68,9 +79,13 @@ def main():
             meta["checks"][p] = {"exit": rc, "violation_line": viol[:1], "summary": tail, "first_reports": first_fail, "wall_s": round(time.time() - t0)}
             print(p, "exit", rc, viol[:1], tail)
     finally:
-        sh("git -C /repo checkout -- .")
+        if scratch:
+            sh("git -C /repo worktree remove --force %s" % ENV["VERIF_REPO"])
+            sh("git -C /repo worktree prune")
+        else:
+            sh("git -C /repo checkout -- .")
     meta["caught_by"] = [p for p, v in meta["checks"].items() if v["exit"] != 0]
-    meta["what_was_run"] = "scratch worktree: go build, go vet, go test ./... with the change (pass), demo with the change (fail), demo without (pass)" + ((" [demo run with " + DEMOFLAGS + "]") if DEMOFLAGS else "") + "; then git -C /repo apply, bin/check <property> quick for " + ", ".join(props) + ", git -C /repo checkout -- ."
+    meta["what_was_run"] = "scratch worktree: go build, go vet, go test ./... with the change (pass), demo with the change (fail), demo without (pass)" + ((" [demo run with " + DEMOFLAGS + "]") if DEMOFLAGS else "") + ("; then bin/check <property> quick for " + ", ".join(props) + " with VERIF_REPO pointing at a scratch worktree holding the change (/repo was being read by a long run)" if scratch else "; then git -C /repo apply, bin/check <property> quick for " + ", ".join(props) + ", git -C /repo checkout -- .")
     out = os.path.join("/verif/seeded", sid)
     os.makedirs(out, exist_ok=True)
     shutil.copy(patch, os.path.join(out, "patch.diff"))
